@@ -334,8 +334,45 @@ func runC01(t gen.Tier, r *gen.Rng, rep *Reporter) {
 		}
 		checkOverwriteHistory(rep, r, spec, v1, v2)
 	}
+	// the same at message level: after a history of writers (Field, BinaryField, Marshal, JSON, Unpack,
+	// unset) on ONE message, Pack then Unpack into a fresh message reproduces what the accessors report
+	forCases(t, r, t.N(120, 3000), t.N(120, 3000), t.N(200, 5000), func(c *hcase) {
+		checkPackUnpackAfterHistory(rep, c)
+	})
 	emitDist(rep, g)
 	rep.Sample("M <generated coherent spec> pack <in-domain content> => unpack into a fresh message: same present ids, canonical values equal, consumed = produced, re-pack identical")
+}
+
+func checkPackUnpackAfterHistory(rep *Reporter, c *hcase) {
+	line := c.line(c.ops, "")
+	safely(rep, line, func() {
+		specT, ok := impl.ParseTree(c.specS)
+		if !ok {
+			return
+		}
+		m := c.replay(c.ops).Cur
+		s := observe(m)
+		if !strings.HasPrefix(s.P, "ok:") {
+			return
+		}
+		held, ok := impl.ParseTree(s.V)
+		if !ok || len(held.Kids) == 0 || held.Kids[0].Name == "-" {
+			return // a message without an MTI is outside the content domain (DESIGN §2)
+		}
+		packed, _ := impl.UnHex(strings.TrimPrefix(s.P, "ok:"))
+		rep.Case(line + " #roundtrip")
+		fresh := iso8583.NewMessage(c.spec)
+		if err := fresh.Unpack(packed); err != nil {
+			// a history can leave content outside the value domain (an empty positional composite, …):
+			// whether Pack's bytes are accepted is checked on generated in-domain content above
+			return
+		}
+		got := impl.MsgTree(fresh)
+		if same, d := sameMsg(canonMsg(specT, got), canonMsg(specT, held)); !same {
+			rep.Viol("after a history of writes to one message, Pack encodes something other than what the message holds", line,
+				fmt.Sprintf("%s | the message reports %s, Pack gave %x, which unpacks to %s", d, held.String(), packed, got.String()))
+		}
+	})
 }
 
 var fieldWriters = []string{"setvalue", "setbytes", "unpack", "json", "marshal-field", "marshal-string", "marshal-bytes", "marshal-zero"}
